@@ -224,10 +224,10 @@ def check_siblings(ctx, out):
         out.inst("C02.siblings", 0, 1)
 
 
-def check_scan(ctx, out):
+def check_scan(ctx, out, rule="C02.scan"):
     main = ctx.facts.bodies.get("bwbin::main")
     if main is None:
-        out.inst("C02.scan", 0, 3)
+        out.inst(rule, 0, 3)
         return
     n = 0
     E = ctx.expr(main)
@@ -238,22 +238,37 @@ def check_scan(ctx, out):
             if re.match(r"^Not\(GlobSet::is_empty\(", txt):
                 n += 1
             else:
-                out.viol("C02.scan", "C02.scan|should-scan", ctx.where(main, t["span"]), "should_scan_files is `%s`; expected `!glob_set.is_empty()`" % txt)
+                out.viol(rule, rule + "|should-scan", ctx.where(main, t["span"]), "should_scan_files is `%s`; expected `!glob_set.is_empty()`" % txt)
             labs = ctx.prov.read_operand(main, t["args"][0])
             if P.has_call(labs, r"diff_parser::line_changes_from_diff$"):
                 n += 1
             else:
-                out.viol("C02.scan", "C02.scan|diff-arg", ctx.where(main, t["span"]), "the line changes handed to parse_blocks do not come from the diff parser")
+                out.viol(rule, rule + "|diff-arg", ctx.where(main, t["span"]), "the line changes handed to parse_blocks do not come from the diff parser")
     for bi, t in main.calls():
         if callee_matches(t, r"globset::Glob::new$") and util.const_val(ctx, main, t["args"][0]) == "**":
             gs = util.guard_texts(ctx, main, bi)
-            a = any(re.match(r"^GlobSet::is_empty\(", g[2]) and "0" not in g[1] for g in gs)
+            a = False
+            for br, vals, ge in util.guards(ctx, main, bi):
+                if ge[0] == "call" and re.search(r"GlobSet::is_empty$", ge[1]) and 0 not in vals:
+                    # the tested set is the merged one (top-level and `list` globs): it comes from Args::globs()
+                    ct = main.blocks[ge[3]]["term"]
+                    gl = ctx.prov.read_operand(main, ct["args"][0])
+                    if P.has_call(gl, r"flags::Args::globs$"):
+                        a = True
+                    else:
+                        out.viol(rule, rule + "|default-glob-source", ctx.where(main, ct["span"]),
+                                 "the `no globs given` test is made on a value that does not come from `Args::globs()` (the merged top-level and `list` globs): globs given to a subcommand are replaced by `**`")
+                        a = True
+                elif ge[0] == "call" and re.search(r"::is_empty$", ge[1]) and 0 not in vals:
+                    out.viol(rule, rule + "|default-glob-source", ctx.where(main, t["span"]),
+                             "the `no globs given` test is `%s`, not a test of the compiled set returned by `Args::globs()` (top-level and `list` globs merged): globs given to the `list` subcommand are replaced by `**`" % render(ge, 120))
+                    a = True
             term = [g for g in gs if "is_terminal" in g[2] or "is_terminal" in render(ctx.expr(main).local(main.local_by_name("is_terminal")[0]) if main.local_by_name("is_terminal") else ("const", ""), 400)]
             b2 = any(("is_terminal" in g[2]) and "0" not in g[1] for g in gs)
             if a and b2:
                 n += 1
             else:
-                out.viol("C02.scan", "C02.scan|default-glob", ctx.where(main, t["span"]),
+                out.viol(rule, rule + "|default-glob", ctx.where(main, t["span"]),
                          "the default `**` glob is installed under [%s]; expected: no positional glob AND interactive (no diff on stdin)" % "; ".join("%s=%s" % (g[2][:60], g[1]) for g in gs[:4]))
     # the diff is read iff not interactive
     for bi, t in main.calls():
@@ -262,8 +277,8 @@ def check_scan(ctx, out):
             if any("is_terminal" in g[2] and g[1] == ["0"] for g in gs):
                 n += 1
             else:
-                out.viol("C02.scan", "C02.scan|diff-read", ctx.where(main, t["span"]), "the diff is not read exactly when stdin is not a terminal")
-    out.inst("C02.scan", n, 4, ["scan := !globs.is_empty(); '**' iff globs empty && interactive; diff read iff !interactive"], exhaustive=True)
+                out.viol(rule, rule + "|diff-read", ctx.where(main, t["span"]), "the diff is not read exactly when stdin is not a terminal")
+    out.inst(rule, n, 4, ["scan := !globs.is_empty(); '**' iff globs empty && interactive; diff read iff !interactive"], exhaustive=True)
 
 
 def run(ctx, out, tier):
@@ -283,6 +298,9 @@ def run(ctx, out, tier):
     bodies = [b for b in ctx.reachable_bodies() if b.id.startswith("blockwatch::blocks::") or b.id.startswith("blockwatch::diff_parser::") or b.id.startswith("bwbin::")]
     shared.sh_err(ctx, out, bodies, floor=30)
     shared.sh_main(ctx, out)
+    shared.sh_traverse(ctx, out)
+    from rules.C01 import check_skipfile
+    check_skipfile(ctx, out, rule="C02.skipfile")
     return meta()
 
 
